@@ -120,6 +120,17 @@ def run_case(ns, mon, case):
         }
         for o in sg.unbind(m22, 0):
             res[f"unbind{len(res)}"] = (o, True)
+        # the iteration protocol hands out results of an indexing op: elements of a tensor that requires grad follow the mode like any result
+        for o in x64:
+            res[f"iter(1-D) element {len(res)}"] = (o, True)
+        e0, e1, e2 = x64
+        res["unpacked element"] = (e1, True)
+        res["list(x)[i]"] = (list(x32)[2], True)
+        for o in m22:
+            res[f"iter(2-D) row {len(res)}"] = (o, True)
+        for o in c64:
+            res[f"iter(const) element {len(res)}"] = (o, False)
+        res["builtin sum(x)"] = (sum(x64), True)
         # nn ops where exactly one (non-first) operand requires grad
         cb = T(np.array([[1.0, 2.0], [3.0, 5.0], [0.5, 0.1]]))
         wreq, breq = T(np.array([1.0, 2.0]), requires_grad=True), T(np.array([0.0, 1.0]), requires_grad=True)
